@@ -120,6 +120,14 @@ def _k3():
         {'demand': [10, 10, 10], 'aff': 'lim', 'limits': lim, 'rank': 50},
         {'demand': [7, 7, 7], 'aff': 'x', 'rank': 100},
         {'demand': [10, 10, 10], 'aff': 'fill', 'rank': 150, 'prio': 1},
+        # same affinity, same limit VALUES, declared for other levels (two
+        # manifests may name one affinity and declare different limits): a
+        # pending 'lim' instance blocked by the rack / cell limit says nothing
+        # about this one
+        {'demand': [3, 3, 3], 'aff': 'lim', 'limits': {'server': 1, 'pod': 2},
+         'rank': 150},
+        {'demand': [6, 6, 6], 'aff': 'lim', 'limits': {'pod': 1, 'rack': 2},
+         'rank': 150},
     ]
     return cfg
 
